@@ -36,6 +36,7 @@ type G struct {
 	started bool
 	stack   []string // this goroutine's interpreted call stack (diagnostics)
 	parked  bool     // voluntarily yielded (runOthers): resumed when nothing else can run
+	vc      vclock   // race mode: this goroutine's vector clock
 }
 
 type abortG struct{}
@@ -62,6 +63,7 @@ type timerEv struct {
 	active  bool
 	period  int64
 	loc     *StructLoc
+	vc      vclock // race mode: clock of the goroutine that armed the timer
 }
 
 type ChanObj struct {
@@ -71,13 +73,18 @@ type ChanObj struct {
 	closed bool
 	sendq  []*pendingSend
 	elemT  types.Type
+	qvc    []vclock // race mode: the sender's clock for every queued value
 }
 
 type pendingSend struct {
 	v     Value
 	taken bool
 	g     *G
+	vc    vclock
 }
+
+type chanRecvKey struct{ c *ChanObj }
+type chanCloseKey struct{ c *ChanObj }
 
 func (c *ChanObj) qlen() int {
 	if c == nil {
@@ -264,6 +271,7 @@ func (in *Interp) goStmt(fr *frame, fn Value, args []Value, cc *ssa.CallCommon, 
 	s := in.ensureSched()
 	g := &G{id: len(s.gs), wake: make(chan struct{}, 1), name: site}
 	s.gs = append(s.gs, g)
+	in.raceFork(g)
 	s.wg.Add(1)
 	go func() {
 		defer s.wg.Done()
@@ -352,17 +360,26 @@ func (in *Interp) chanSend(fr *frame, ch Value, v Value, site string) {
 		panic(targetPanic{runtime: "send on closed channel", site: site})
 	}
 	if len(c.q) < c.cap {
-		c.q = append(c.q, v)
+		c.push(in, v, in.raceSnapshot())
+		in.raceAcquire(chanRecvKey{c}) // earlier receives made the room (over-approximation)
 		return
 	}
 	// must wait for a receiver (unbuffered) or for space (buffered, full)
-	p := &pendingSend{v: v, g: s.cur}
+	p := &pendingSend{v: v, g: s.cur, vc: in.raceSnapshot()}
 	c.sendq = append(c.sendq, p)
 	s.block(func() bool { return p.taken || c.closed }, "chan send at "+site)
 	if !p.taken {
 		// closed while waiting
 		c.removePending(p)
 		panic(targetPanic{runtime: "send on closed channel", site: site})
+	}
+	in.raceAcquire(chanRecvKey{c}) // the receive happens before the completion of the send
+}
+
+func (c *ChanObj) push(in *Interp, v Value, vc vclock) {
+	c.q = append(c.q, v)
+	if in.race != nil {
+		c.qvc = append(c.qvc, vc)
 	}
 }
 
@@ -376,27 +393,37 @@ func (c *ChanObj) removePending(p *pendingSend) {
 }
 
 // take removes one value from c (which must be receivable and not merely closed-empty).
-func (c *ChanObj) take() (Value, bool) {
+func (c *ChanObj) take(in *Interp) (Value, bool) {
 	if len(c.q) > 0 {
 		v := c.q[0]
 		c.q = c.q[1:]
+		if in.race != nil && len(c.qvc) > 0 {
+			in.raceAcquireVC(c.qvc[0])
+			c.qvc = c.qvc[1:]
+		}
 		// a blocked sender can now move its value into the buffer
 		for _, p := range c.sendq {
 			if !p.taken {
 				p.taken = true
-				c.q = append(c.q, p.v)
+				c.push(in, p.v, p.vc)
 				c.removePending(p)
 				break
 			}
 		}
+		in.raceRelease(chanRecvKey{c})
 		return v, true
 	}
 	for _, p := range c.sendq {
 		if !p.taken {
 			p.taken = true
 			c.removePending(p)
+			in.raceAcquireVC(p.vc)
+			in.raceRelease(chanRecvKey{c})
 			return p.v, true
 		}
+	}
+	if c.closed {
+		in.raceAcquire(chanCloseKey{c})
 	}
 	return nil, false
 }
@@ -415,7 +442,7 @@ func (in *Interp) chanRecv(fr *frame, ch Value, commaOk bool, site string) Value
 		s.block(func() bool { return c.canRecv() }, "chan receive at "+site)
 		delete(recvWaiting, g)
 	}
-	v, ok := c.take()
+	v, ok := c.take(in)
 	if !ok {
 		v = zero(c.elemT)
 	}
@@ -435,6 +462,7 @@ func (in *Interp) chanClose(fr *frame, ch Value, site string) {
 	if c.closed {
 		panic(targetPanic{runtime: "close of closed channel", site: site})
 	}
+	in.raceRelease(chanCloseKey{c})
 	c.closed = true
 }
 
@@ -496,15 +524,12 @@ func (in *Interp) selectStmt(fr *frame, instr *ssa.Select) Value {
 		if c.c.closed {
 			panic(targetPanic{runtime: "send on closed channel", site: site})
 		}
-		if len(c.c.q) < c.c.cap {
-			c.c.q = append(c.c.q, c.v)
-		} else {
-			// hand directly to a blocked receiver: enqueue; receiver takes on wake
-			c.c.q = append(c.c.q, c.v)
-		}
+		// (when the queue is full the value is handed to a blocked receiver, which takes it on wake)
+		c.c.push(in, c.v, in.raceSnapshot())
+		in.raceAcquire(chanRecvKey{c.c})
 		return in.selectResult(instr, idx, nil, false)
 	}
-	v, ok := c.c.take()
+	v, ok := c.c.take(in)
 	if !ok {
 		v = zero(c.c.elemT)
 	}
@@ -543,7 +568,7 @@ func (s *Sched) addTimer(d int64, ch *ChanObj, fn func(), period int64) *timerEv
 		d = 0
 	}
 	s.timerSeq++
-	t := &timerEv{at: clk.elapsed + d, seq: s.timerSeq, ch: ch, fn: fn, active: true, period: period}
+	t := &timerEv{at: clk.elapsed + d, seq: s.timerSeq, ch: ch, fn: fn, active: true, period: period, vc: s.in.raceSnapshot()}
 	s.timers = append(s.timers, t)
 	return t
 }
@@ -580,7 +605,7 @@ func (s *Sched) fire(t *timerEv) {
 		return
 	}
 	if t.ch != nil && len(t.ch.q) < t.ch.cap {
-		t.ch.q = append(t.ch.q, s.in.nowValue())
+		t.ch.push(s.in, s.in.nowValue(), t.vc)
 	}
 }
 
